@@ -1,5 +1,6 @@
 import Gv.Model.SW
 import Gv.Spec.SW
+import Gv.Spec.Matrices
 import Gv.Proofs.SWSpec
 import Gv.Proofs.SWFill
 import Gv.Proofs.SWTrace
@@ -300,6 +301,27 @@ for the gap character, so `seqToindices` rejects gapped input -/
 theorem gap_not_in_index_maps :
     lookup (toUpper GAP) Gen.dna_to_matrix_pos = none ∧ lookup (toUpper GAP) Gen.prot_to_matrix_pos = none := by
   decide
+
+/-- **The built-in protein matrix is BLOSUM62 as published**: for every pair of the 24 symbols the index
+map knows, the regenerated table holds the NCBI BLOSUM62 score (`Spec/Matrices.lean`, entered
+independently) — in particular it is symmetric. -/
+theorem blosum62_is_published : ∀ p ∈ Gen.prot_to_matrix_pos, ∀ q ∈ Gen.prot_to_matrix_pos,
+    Spec.Matrices.protScore p.1 q.1 = some ((Gen.blosum62_subst_matrix.getD p.2 []).getD q.2 0) := by
+  decide +kernel
+
+/-- **The built-in nucleotide matrix is DNAfull (EDNAFULL / NUC.4.4) as published**, with `U` scored
+as `T` and `X` as `N`. -/
+theorem dnafull_is_published : ∀ p ∈ Gen.dna_to_matrix_pos, ∀ q ∈ Gen.dna_to_matrix_pos,
+    Spec.Matrices.dnaScore p.1 q.1 = some ((Gen.dnafull_subst_matrix.getD p.2 []).getD q.2 0) := by
+  decide +kernel
+
+/-- the published matrices are symmetric -/
+theorem published_matrices_symmetric :
+    (∀ a ∈ Spec.Matrices.blosumOrder, ∀ b ∈ Spec.Matrices.blosumOrder,
+      Spec.Matrices.protScore a b = Spec.Matrices.protScore b a) ∧
+    (∀ a ∈ Spec.Matrices.dnaOrder, ∀ b ∈ Spec.Matrices.dnaOrder,
+      Spec.Matrices.dnaScore a b = Spec.Matrices.dnaScore b a) := by
+  decide +kernel
 
 /-- (table fact) every position of an index map addresses a row and a column of its matrix, so
 `matchScore` never indexes out of range -/
